@@ -278,7 +278,7 @@ def judge_file(f, rec, diags):
             if i in slot:
                 problems.append(("missing|DS102|statement-between-CREATE-new_<t>-and-DROP-<t>-of-a-rebuild",
                                  "table %r existed before %s and is dropped by statement %d, which sits between the CREATE and the DROP of a table rebuild; no DS102" % (t, f["name"], i + 1)))
-            elif ("new_" + t) in created and ("new_" + t) not in canon_tmp:
+            elif ("new_" + t) in created and not any(g[0] == t and g[1] == "new_" + t for g in groups):
                 problems.append(("missing|DS102|file-creates-new_<t>-and-drops-<t>",
                                  "table %r existed before %s and is dropped by it, no DS102; the same file creates table %r" % (t, f["name"], "new_" + t)))
             else:
